@@ -1442,6 +1442,10 @@ def placed_first(index, func, expr, param):
         inner = inline_expr_call(index, func, expr)
         if inner is not None:
             expr = inner
+    # int(<flag>) / bool(<flag>) order like the flag itself (False < True)
+    while isinstance(expr, ast.Call) and callee_text(expr) in ('int', 'bool') \
+            and len(expr.args) == 1 and not expr.keywords:
+        expr = expr.args[0]
     if isinstance(expr, ast.IfExp) and \
             isinstance(expr.body, ast.Constant) and \
             isinstance(expr.orelse, ast.Constant):
